@@ -31,8 +31,14 @@ try:
         if not os.path.isdir(d) or (want and sid not in want):
             continue
         meta = json.load(open(os.path.join(d, "meta.json")))
-        props = meta.get("checks_run", {}).get("caught_by") or [sid.split("-")[0]]
-        props = [p for p in props if p.startswith("C")][:2]
+        cb = meta.get("checks_run", {}).get("caught_by") or [sid.split("-")[0]]
+        if isinstance(cb, dict):      # values starting with "not caught" record a check that does NOT see this change
+            props = [p for p, why in cb.items() if p.startswith("C") and not str(why).lower().startswith("not caught")][:2]
+        else:
+            props = [p for p in cb if p.startswith("C")][:2]
+        if not props:
+            print("%s RECORDED-AS-NOT-CAUGHT" % sid, flush=True)
+            continue
         r = subprocess.run(["python3", os.path.join(ROOT, "tools", "seedrun.py"), WT, os.path.join(d, "patch.diff")] + props,
                            cwd=ROOT, stdout=subprocess.PIPE, stderr=subprocess.STDOUT, text=True)
         try:
